@@ -103,6 +103,13 @@ def run(ctx):
     rnd.shuffle(revert)
     revert = revert[:ctx.pick(50, 400)]
     aimed += revert
+    # the zero-byte file is a content of its own (Missing # Empty): two-operation behaviours over {A, empty}
+    # that use the empty content, deletions included
+    all2e = ctx.tlc("ReloadWatch", "ReloadWatch_all2e.cfg", count=False).printed_json("SCEN")
+    empt = [s for s in all2e if any(x.get("c") == "empty" for x in s["steps"])]
+    rnd.shuffle(empt)
+    empt.sort(key=lambda s: not any(x.get("kind") == "delete" for x in s["steps"]))   # empty next to missing first
+    aimed += empt[:ctx.pick(40, 300)]
     blind = ctx.tlc("ReloadWatch", "ReloadWatch_hazblind.cfg", count=False, timeout=1800).printed_json("SCEN")
     rnd.shuffle(blind)
     aimed += blind[:ctx.pick(30, 400)]       # the watcher breaks for good, then the file changes
